@@ -247,7 +247,7 @@ pub fn check_after_aborts(case: &Case, stats: &mut Stats) -> CheckResult {
   Ok(())
 }
 
-fn after_aborts_cfg(t: Tier) -> GenCfg {
+pub fn after_aborts_cfg(t: Tier) -> GenCfg {
   let mut c = bu_cfg(t);
   c.bottom_up_weight = 3;
   c.task_panic_share = 8;
